@@ -743,7 +743,7 @@ func (rw *Rewriter) r11(p *Node) string {
 var AvoidVarOverPatternParam = false // fixed in /repo: exclusion off
 
 // AvoidEvalInParams keeps R9 out of parameter lists (listed known finding C02-forward-ref-param-defaults).
-var AvoidEvalInParams = false // fixed in /repo: exclusion off
+var AvoidEvalInParams = true // listed again: C02-param-tdz-through-eval
 
 // AvoidCatchCompletion keeps R11 (whose `var $t = update` has no value of its own but can throw) out of try blocks at
 // script / eval level (listed known finding C02-catch-completion-value).
@@ -896,6 +896,9 @@ func (rw *Rewriter) r13(p *Node) string {
 		if role == RNamed && (n.S == "" || n.Has(FArrow)) {
 			return false // the name given by the syntactic position would be lost
 		}
+		if AvoidEvalInParams && c.InParams {
+			return false // listed known finding C02-param-tdz-through-eval
+		}
 		if usesSuper(&Node{K: KBlock, L: append(append([]*Node(nil), n.L...), n.M...)}) {
 			return false
 		}
@@ -919,4 +922,46 @@ func (rw *Rewriter) r13(p *Node) string {
 		}
 	}
 	return desc
+}
+
+// ---- R14: end of a loop body <-> explicit continue
+
+// r14 appends `continue;` (or `continue L;` for a labelled loop) to the block body of a loop: falling off the end of
+// the body and continuing are the same (the continue completion carries the body's value: UpdateEmpty).
+func (rw *Rewriter) r14(p *Node) string {
+	type site struct {
+		loop  *Node
+		label string
+	}
+	var sites []site
+	var visit func(n *Node, label string)
+	visit = func(n *Node, label string) {
+		if n == nil {
+			return
+		}
+		switch n.K {
+		case KLabel:
+			visit(n.A, n.S)
+			return
+		case KFor, KForIn, KForOf, KWhile, KDo:
+			if n.D != nil && n.D.K == KBlock && !n.Has(FSynthetic) {
+				sites = append(sites, site{n, label})
+			}
+		}
+		for _, ch := range n.Children() {
+			visit(ch, "")
+		}
+	}
+	visit(p, "")
+	if len(sites) == 0 {
+		return ""
+	}
+	s := sites[rw.R.Intn(len(sites))]
+	c := &Node{K: KCont, F: FSynthetic}
+	if s.label != "" && rw.chance(50) {
+		c.S = s.label
+	}
+	s.loop.D.L = append(s.loop.D.L, c)
+	s.loop.F |= FSynthetic
+	return s.loop.K.String() + " " + c.S
 }
